@@ -133,8 +133,12 @@ package gcsemu
 //@   modifies *, ghost(jsonBodies), ghost(epoch), ghost(gcsValidEpoch), ghost(gcsReadEpoch), ghost(gcsReadObj), ghost(gcsReadMetagen), ghost(lmTick), ghost(lmLastOp), ghost(lmLastId)
 //@   ensures jsonBodies <= old(jsonBodies) + 1   // at most one JSON body (resumable initiation / 308 answers have none)
 
+// C02, resumable assembly: a chunk that declares the range [lo, hi] is appended at offset lo exactly - whatever had
+// been received from lo onwards in an earlier attempt is dropped first (a retried chunk never duplicates bytes) -
+// and it carries hi+1-lo bytes; a chunk without range ("bytes */N") carries no bytes.
 //@ func (g *GcsEmu) handleGcsNewObjectResume
 //@   property C02 C04 C20
+//@   callsite builtin.append requires byteRange.lo == -1 ? len(arg1) == 0 : (len(arg0) == byteRange.lo && len(arg1) == byteRange.hi + 1 - byteRange.lo)
 //@   requires w != nil && r != nil && r.Body != nil
 //@   requires !isnil(ctx)
 //@   modifies *, ghost(jsonBodies), ghost(epoch), ghost(gcsValidEpoch), ghost(gcsReadEpoch), ghost(gcsReadObj), ghost(gcsReadMetagen), ghost(lmTick), ghost(lmLastOp), ghost(lmLastId)
